@@ -242,9 +242,16 @@ struct Runner {
       for (size_t t = 0; t < (size_t)m.NumTri(); t++) {
         // rotate so that the lexicographically smallest corner comes first
         std::vector<std::vector<double>> c(3);
+        const int rr = runOf[t];
+        const bool hasN = rr >= 0 && (size_t)rr < m.runFlags.size() && (m.runFlags[rr] & 2) && m.numProp >= 6;
         for (int k = 0; k < 3; k++) {
           size_t v = m.triVerts[3 * t + k];
-          for (size_t p = 0; p < (size_t)m.numProp; p++) c[k].push_back(m.vertProperties[v * m.numProp + p]);
+          for (size_t p = 0; p < (size_t)m.numProp; p++) {
+            double x = m.vertProperties[v * m.numProp + p];
+            // channels flagged as normals may differ by renormalisation rounding: compare them to 1e-9
+            if (hasN && p >= 3 && p < 6) x = std::round(x * 1e9) / 1e9 + 0.0;
+            c[k].push_back(x);
+          }
         }
         int best = 0;
         for (int k = 1; k < 3; k++)
